@@ -7,7 +7,11 @@
 //           t <i> <op> <op> ...
 // ops:  in<k> insert(const value&)  im<k> insert(value&&)  ih<k> insert(hint,value)  em<k> emplace  eh<k> emplace_hint
 //       fd<k> find  ct<k> count  cn<k> contains  lb<k> lower_bound  ub<k> upper_bound (ordered only)  er<k> equal_range
+//       mg<k> merge(source): a private one-element container holding key k is merged into the shared one (a concurrently safe modifier:
+//             the node moves over iff the key can be inserted; otherwise it stays in the source, which must remain intact)
+//       rh<n> rehash(n) (unordered only; concurrently safe) -- the bucket count must stay a power of two and every key findable
 //       tr full traversal begin()..end()   rg traversal through range() split twice   W<n> work
+// cfg swap=<0|1|2>: at quiescence the contents are swapped into a fresh container (1) or moved out and back (2) and looked up there too
 // Only operations documented as concurrency-safe run concurrently; unsafe_erase / clear / rehash only at quiescence.
 // Every element carries a unique id inside its key (ignored by hash, equality and comparator), so equal keys stay distinguishable.
 // `lvl` seeds the skip list's level generator (the library seeds it with time(nullptr): here it is part of the case, see c12_level_seed).
@@ -25,11 +29,11 @@ static inline long c12_level_seed() { return g_lvl_seed; }
 const char* H_PROP = "C12";
 bool H_TSO = true;
 
-enum { IN, IM, IH, EM, EH, FD, CT, CN, LB, UB, ER, TR, RG, WK, NCODE };
-static const char* CODE[NCODE] = { "in", "im", "ih", "em", "eh", "fd", "ct", "cn", "lb", "ub", "er", "tr", "rg", "W" };
+enum { IN, IM, IH, EM, EH, MG, FD, CT, CN, LB, UB, ER, TR, RG, RH, WK, NCODE };
+static const char* CODE[NCODE] = { "in", "im", "ih", "em", "eh", "mg", "fd", "ct", "cn", "lb", "ub", "er", "tr", "rg", "rh", "W" };
 static const char* TYPES[8] = { "um", "us", "umm", "ums", "om", "os", "omm", "oms" };
 static const char* HMODE[4] = { "id", "const", "low", "hi" };
-static bool is_ins(int c) { return c <= EH; }
+static bool is_ins(int c) { return c <= MG; }
 static const int KOFF[8] = { 0, 8, 1, 16, 9, 24, 4, 32 };    // same bucket for <= 8 buckets / neighbours in key order / pairs sharing a split-order key (hash=hi)
 
 // ------------------------------------------------------------------ generator
@@ -46,7 +50,7 @@ std::string h_gen(Src& s) {
     std::vector<int> keys;
     for (int i = 0; i < nk; i++) { int k = base + KOFF[s.choose(8)]; if (std::find(keys.begin(), keys.end(), k) == keys.end()) keys.push_back(k); }
     std::string o = std::string("assoc type=") + TYPES[ty] + " hash=" + HMODE[hm] + " cmp=" + (cg ? "greater" : "less") + " buckets=" + std::to_string(b0) +
-                    " grow=" + std::to_string(grow) + " lvl=" + std::to_string(lvl) + " threads=" + std::to_string(nt) + "\n";
+                    " grow=" + std::to_string(grow) + " lvl=" + std::to_string(lvl) + " threads=" + std::to_string(nt) + " swap=" + std::to_string((int)s.weighted({ 3, 2, 2 })) + "\n";
     o += "pre"; std::vector<int> used;
     for (int i = 0; i < npre; i++) {
         int k;
@@ -60,9 +64,10 @@ std::string h_gen(Src& s) {
         o += "t " + std::to_string(t);
         int nops = s.range(1, 8);
         for (int i = 0; i < nops; i++) {
-            int c = (int)s.weighted({ 5, 2, 1, 3, 1, 4, 2, 2, ord ? 2u : 0u, ord ? 1u : 0u, 2, 3, 1, 1 });
+            int c = (int)s.weighted({ 5, 2, 1, 3, 1, 2, 4, 2, 2, ord ? 2u : 0u, ord ? 1u : 0u, 2, 3, 1, ord ? 0u : 1u, 1 });
             if (c == WK) o += " W" + std::to_string(s.range(1, 6));
             else if (c == TR || c == RG) o += std::string(" ") + CODE[c];
+            else if (c == RH) { static const int BC[] = { 16, 64, 3, 256, 100 }; o += std::string(" rh") + std::to_string(BC[s.choose(5)]); }
             else o += std::string(" ") + CODE[c] + std::to_string(keys[s.choose((uint32_t)keys.size())]);
         }
         o += "\n";
@@ -90,6 +95,14 @@ static std::size_t hash_of(int k) {
 }
 struct KHash { std::size_t operator()(const K& x) const { return hash_of(x.k); } };
 struct KEq { bool operator()(const K& a, const K& b) const { return a.k == b.k; } };
+// the source of a merge() may hash differently from the target: the node's split-order key is recomputed for the target and must be
+// restored when the node goes back to the source
+struct KHash2 { std::size_t operator()(const K& x) const { return (std::size_t)(unsigned)x.k * 0x9E3779B97F4A7C15ull + 12345; } };
+template <class C> struct MergeSrc { typedef C type; };
+template <> struct MergeSrc<tbb::concurrent_unordered_map<K, int, struct KHash, KEq>> { typedef tbb::concurrent_unordered_map<K, int, KHash2, KEq> type; };
+template <> struct MergeSrc<tbb::concurrent_unordered_set<K, struct KHash, KEq>> { typedef tbb::concurrent_unordered_set<K, KHash2, KEq> type; };
+template <> struct MergeSrc<tbb::concurrent_unordered_multimap<K, int, struct KHash, KEq>> { typedef tbb::concurrent_unordered_multimap<K, int, KHash2, KEq> type; };
+template <> struct MergeSrc<tbb::concurrent_unordered_multiset<K, struct KHash, KEq>> { typedef tbb::concurrent_unordered_multiset<K, KHash2, KEq> type; };
 static bool cmp_k(int a, int b) { return g_greater ? a > b : a < b; }
 struct KCmp { bool operator()(const K& a, const K& b) const { return cmp_k(a.k, b.k); } };
 
@@ -100,7 +113,7 @@ struct El { int k; uint64_t inv, resp, vis, ret; bool success; };   // vis: firs
 static const int NONE = INT_MIN;
 static std::vector<std::vector<Op>> g_prog; static std::vector<int> g_pre;
 static std::vector<Rec> g_recs; static std::map<int, El> g_el;       // uid -> element (uid = index of the inserting Rec, or -1-i for pre-filled)
-static int g_nt = 2, g_type = 0, g_b0 = 8, g_grow = 0;
+static int g_nt = 2, g_type = 0, g_b0 = 8, g_grow = 0, g_swap = 0;
 static bool g_ord, g_multi, g_map;
 static long n_ins_pairs = 0, n_trav_overlap = 0, n_failed = 0, n_partial = 0, n_same_key_race = 0, n_nonmono = 0;
 
@@ -152,6 +165,15 @@ template <class C, bool MAP, bool ORD> static void do_op(C& c, int tid, const Op
     case IH: { const typename C::value_type v = A::mk(k, id); auto it = c.insert(c.cend(), v); point_at(it, it == c.end()); r.ok = r.ruid == id; break; }
     case EM: { auto p = A::emplace(c, k, id); r.ok = p.second; point_at(p.first, p.first == c.end()); break; }
     case EH: { auto it = A::emplace_hint(c, k, id); point_at(it, it == c.end()); r.ok = r.ruid == id; break; }
+    case MG: { typename MergeSrc<C>::type src; auto ps = src.insert(A::mk(k, id)); (void)ps; c.merge(src);
+               bool moved = src.size() == 0; r.ok = moved;
+               if (!moved) { if (src.size() != 1) vs_violation("MERGE-SOURCE", "merge of a one-element source left it with %zu elements", src.size());
+                             K q(k, -1); auto si = src.find(q); if (si == src.end() || A::key(*si).uid != id) vs_violation("MERGE-SOURCE", "merge(%d) did not move the node, and the source no longer finds its own key", k);
+                             if (g_multi) vs_violation("INSERT-RESULT", "merge into a multi container left the node in the source"); }
+               { K q(k, -1); auto it = c.find(q); if (it == c.end()) vs_violation(moved ? "LOST-KEY" : "INSERT-RESULT", "after merge(%d) the target does not find the key (node %s)", k, moved ? "moved" : "stayed in the source");
+                 if (moved) { r.rk = k; r.ruid = id; } else point_at(it, false); }
+               break; }
+    case RH: if constexpr (!ORD) { c.rehash((std::size_t)k); std::size_t bc = c.unsafe_bucket_count(); if (bc & (bc - 1)) vs_violation("BUCKET-COUNT", "after rehash(%d) the bucket count is %zu, not a power of two", k, bc); } r.ok = true; break;
     case FD: { K q(k, -1); auto it = c.find(q); point_at(it, it == c.end()); r.ok = r.ruid != NONE; break; }
     case CT: { K q(k, -1); r.cnt = (long)c.count(q); break; }
     case CN: { K q(k, -1); r.ok = c.contains(q); break; }
@@ -318,12 +340,27 @@ template <class C, bool MAP, bool ORD> static void run_all() {
     // ---- quiescence
     judge();
     std::size_t nsucc = 0; std::map<int, long> per_key; for (auto& kv : g_el) { per_key[kv.second.k] += 0; if (kv.second.success) { nsucc++; per_key[kv.second.k]++; } }
-    for (auto& op_t : g_prog) for (auto& op : op_t) if (op.code != WK && op.code != TR && op.code != RG) per_key[op.k] += 0;
-    for (auto& kv : per_key) {           // every key reachable through the lookup path, exact counts
-        K q(kv.first, -1); long cnt = (long)c.count(q); auto it = c.find(q); bool f = it != c.end();
-        if (cnt != kv.second) vs_violation(cnt < kv.second ? "LOST-KEY" : "GHOST-ELEMENT", "at quiescence count(%d)=%ld, successful inserts of this key: %ld", kv.first, cnt, kv.second);
-        if (f != (kv.second > 0)) vs_violation(f ? "GHOST-ELEMENT" : "LOST-KEY", "at quiescence find(%d) %s, successful inserts of this key: %ld", kv.first, f ? "succeeds" : "fails", kv.second);
-        if (f && A::key(*it).k != kv.first) vs_violation("RANGE-WRONG", "at quiescence find(%d) returns key %d", kv.first, A::key(*it).k);
+    for (auto& op_t : g_prog) for (auto& op : op_t) if (op.code != WK && op.code != TR && op.code != RG && op.code != RH) per_key[op.k] += 0;
+    auto lookups = [&](C& x, const char* where) {           // every key reachable through the lookup path, exact counts
+        for (auto& kv : per_key) {
+            K q(kv.first, -1); long cnt = (long)x.count(q); auto it = x.find(q); bool f = it != x.end();
+            if (cnt != kv.second) vs_violation(cnt < kv.second ? "LOST-KEY" : "GHOST-ELEMENT", "%s count(%d)=%ld, successful inserts of this key: %ld", where, kv.first, cnt, kv.second);
+            if (f != (kv.second > 0)) vs_violation(f ? "GHOST-ELEMENT" : "LOST-KEY", "%s find(%d) %s, successful inserts of this key: %ld", where, kv.first, f ? "succeeds" : "fails", kv.second);
+            if (f && A::key(*it).k != kv.first) vs_violation("RANGE-WRONG", "%s find(%d) returns key %d", where, kv.first, A::key(*it).k);
+        }
+        std::size_t n = 0; for (auto it = x.begin(); it != x.end(); ++it) n++;
+        if (n != nsucc || x.size() != nsucc) vs_violation("SIZE-MISMATCH", "%s the container iterates over %zu elements and reports size()=%zu, %zu inserts succeeded", where, n, x.size(), nsucc);
+    };
+    lookups(c, "at quiescence");
+    if (g_swap == 1) {          // contents swapped into a fresh (never used) container and back: the receiver must find everything
+        C* f; if constexpr (ORD) f = new C(); else f = new C((std::size_t)g_b0);
+        f->swap(c);
+        if (c.size() != 0 || c.begin() != c.end()) vs_violation("SIZE-MISMATCH", "after swap with a fresh container the source is not empty");
+        lookups(*f, "after swap into a fresh container:");
+        c.swap(*f); delete f; lookups(c, "after swapping back:"); vs_stat_flag("swap_round_trip");
+    } else if (g_swap == 2) {   // move construction and move assignment
+        C* m = new C(std::move(c)); lookups(*m, "after move construction:");
+        c = std::move(*m); delete m; lookups(c, "after move assignment:"); vs_stat_flag("move_round_trip");
     }
     Rec fin{ 0, TR, 0 }; fin.inv = vs_now(); for (auto it = c.begin(); it != c.end(); ++it) take<C, MAP>(fin, it); fin.resp = vs_now();
     check_seq(fin, true, "final traversal");
@@ -356,7 +393,7 @@ void h_run(Case& c) {
             std::string ty = kvs(l, "type", "um"); g_type = -1; for (int i = 0; i < 8; i++) if (ty == TYPES[i]) g_type = i;
             std::string hm = kvs(l, "hash", "id"); for (int i = 0; i < 4; i++) if (hm == HMODE[i]) g_hmode = i;
             g_greater = kvs(l, "cmp", "less") == "greater"; g_b0 = (int)kvl(l, "buckets", 8); g_grow = (int)kvl(l, "grow", 0);
-            g_lvl_seed = (int)kvl(l, "lvl", 1); g_nt = (int)kvl(l, "threads", 2);
+            g_lvl_seed = (int)kvl(l, "lvl", 1); g_nt = (int)kvl(l, "threads", 2); g_swap = (int)kvl(l, "swap", 0);
         } else if (w[0] == "pre") { for (std::size_t i = 1; i < w.size(); i++) g_pre.push_back(atoi(w[i].c_str())); }
         else if (w[0] == "t") {
             int t = atoi(w[1].c_str()); if ((int)g_prog.size() <= t) g_prog.resize(t + 1);
